@@ -112,7 +112,12 @@ def helpers(np):
         return x is None
 
     def same_object(a, b):
-        return a is b
+        if a is b:
+            return True
+        # pre-state objects come from a second, independent build: compare plain values by value
+        if isinstance(a, (str, int, float, bool, type(None), tuple)) and type(a) is type(b):
+            return a == b
+        return False
 
     def is_nan(x):
         return bool(np.isnan(x))
@@ -146,6 +151,18 @@ def helpers(np):
     def same_fp_bool(a, b):
         return bool(a) == bool(b)
 
+    def exceeds(a, b):
+        try:
+            return bool(a > b)
+        except TypeError:
+            return True
+
+    def below(a, b):
+        try:
+            return bool(a < b)
+        except TypeError:
+            return True
+
     def approx(a, b, tol=1e-9):
         a, b = complex(a), complex(b)
         return abs(a - b) <= tol * (1 + abs(a) + abs(b))
@@ -154,7 +171,7 @@ def helpers(np):
 
     def is_vector(x):
         return hasattr(x, '_data') and hasattr(x, 'asarray')
-    return dict(INF_BOUND=1.0e30, same_fp=same_fp, same_fp_bool=same_fp_bool, approx=approx, is_scalar=is_scalar, is_vector=is_vector, is_view=is_view, iff=iff, is_none=is_none, same_object=same_object, is_nan=is_nan, is_inf=is_inf,
+    return dict(exceeds=exceeds, below=below, INF_BOUND=1.0e30, same_fp=same_fp, same_fp_bool=same_fp_bool, approx=approx, is_scalar=is_scalar, is_vector=is_vector, is_view=is_view, iff=iff, is_none=is_none, same_object=same_object, is_nan=is_nan, is_inf=is_inf,
                 fp_finite=fp_finite, Sum=Sum, arr_eq=arr_eq, np=np)
 
 
@@ -276,10 +293,22 @@ def run_one(c, vals, np, om, override=None, tol=1e-9):
                 should = bool(eval(compile_clause(cond, pnames), e2))
             except Exception as e:
                 should = False
+                out['detail'].setdefault('clause_errors', []).append('%s: %r' % (cond, e))
             if should:
                 out['failed'].append({'kind': 'exc', 'clause': 'must raise %s when %s' % (et, cond)})
     else:
-        if raised in c.raises_iff:
+        if raised not in c.raises_iff and '*' in c.raises_iff and raised in c.may_raise:
+            e2 = dict(env)
+            for k in pnames:
+                e2[k] = env['__old_' + k]
+            try:
+                should = bool(eval(compile_clause(c.raises_iff['*'], pnames), e2))
+            except Exception as e:
+                should = True
+                out['detail'].setdefault('clause_errors', []).append('%s: %r' % (c.raises_iff['*'], e))
+            if not should:
+                out['failed'].append({'kind': 'exc', 'clause': '%s raised although not (%s)' % (raised, c.raises_iff['*'])})
+        elif raised in c.raises_iff:
             e2 = dict(env)
             for k in pnames:
                 e2[k] = env['__old_' + k]
